@@ -158,6 +158,13 @@ package store
 //@ iface (bc BlobCreator) Digest() (d digest.Digest)
 //@   modifies alloc, ghost(fswrites)
 //@   ensures [fs-policy]{C14} !fsWritable() ==> fswrites() == old(fswrites())
+//@   -- what a session reports is the digest of its digester: a well-formed digest (proved for both implementations below)
+//@   ensures [well-formed] digestOK(d)
+
+//@ func (dru *dirRepoUpload) Digest() (d digest.Digest)
+//@   ensures [well-formed]{C15} digestOK(d)
+//@ func (mru *memRepoUpload) Digest() (d digest.Digest)
+//@   ensures [well-formed]{C15} digestOK(d)
 
 //@ iface (bc BlobCreator) Verify(d digest.Digest) (err error)
 //@   modifies alloc, BlobCreator.written, BlobCreator.verified, ghost(fswrites)
@@ -321,6 +328,10 @@ package store
 //@   assert [opens-the-file-of-the-digest]{C01,C10} before "os.Open(": arg0 == blobFile(dr.path, d)
 //@ func (dr *dirRepo) blobMeta(d digest.Digest, locked bool) (m blobMeta, err error)
 //@   assert [stats-the-file-of-the-digest]{C05,C10} before "os.Stat(": arg0 == blobFile(dr.path, d)
+//@ -- what is listed is what is below blobs/, whatever the algorithm directories are called: the listing starts from the
+//@ -- blobs directory itself, not from a fixed set of names (a digest the API accepted and stored is a digest the collector sees)
+//@ func (dr *dirRepo) blobList(locked bool) (dl []digest.Digest, err error)
+//@   assert [lists-the-blobs-directory]{C10,C06} before "os.ReadDir("#1: arg0 == pathJoin(dr.path, "blobs")
 //@ func (dr *dirRepo) blobDelete(d digest.Digest, locked bool) (err error)
 //@   assert [removes-the-file-of-the-digest]{C06,C10} before "os.Remove(": arg0 == blobFile(dr.path, d)
 
@@ -644,3 +655,6 @@ package store
 //@   forbid [index-update-removes-no-content]{C09} "blobDelete("
 //@   forbid [index-update-removes-no-content]{C09} "os.Remove"
 //@   ensures [acknowledged-means-saved]{C09,C10,C03} err == nil ==> renamedTo(pathJoin(dr.path, "index.json")) > old(renamedTo(pathJoin(dr.path, "index.json")))
+
+//@ -- fallback tags of the referrers conversion (C17): <algorithm>-<64 hex digits> for the two algorithms the code converts
+//@ regexp referrerTagRe == "^(sha256|sha512)-([0-9a-f]{64})$" {C17}
